@@ -264,7 +264,8 @@ class Gen:
         rnd = self.rnd
         for _ in range(self.n(300, 6000)):
             base = rnd.choice([10, 16, 8, 2])
-            nd = rnd.randint(1, {10: 62, 16: 52, 8: 68, 2: 205}[base])
+            big_one = base in (10, 16) or rnd.random() < 0.15     # octal/binary literals >= 2^63 are rejected by the scanner
+            nd = rnd.randint(1, {10: 62, 16: 52, 8: 68, 2: 205}[base] if big_one else {8: 21, 2: 63}[base])
             ds = self.rand_digits(base, nd)
             pre = {10: "", 16: rnd.choice(["0x", "0X"]), 8: rnd.choice(["0o", "0O"]), 2: rnd.choice(["0b", "0B"])}[base]
             self.add("lit", pre + self.text_of(ds, rnd.random() < 0.3), digs=ds, base=base)
@@ -442,23 +443,31 @@ class Gen:
     RP = None
 
     def range_params(self):
+        """(start, stop, step): mostly inside the signed 64-bit range the implementation accepts
+        (so that the operation under test is reached), a minority beyond it"""
         rnd = self.rnd
-        P = [0, 1, 2, 3, 5, 10, 1 << 31, 1 << 32, 1 << 62, (1 << 63) - 1, 1 << 63, 1 << 64]
-        anchors = sorted({s * p + d for p in P for s in (1, -1) for d in (-2, -1, 0, 1, 2)})
+        wild = rnd.random() < 0.12
+        P = [0, 1, 2, 3, 5, 10, 1 << 31, 1 << 32, 1 << 62, (1 << 63) - 3]
+        anchors = sorted({s * p + d for p in P for s in (1, -1) for d in (-2, -1, 0, 1, 2)} | {-(1 << 63), -(1 << 63) + 1})
         steps = [1, 1, 1, 2, 3, 7, -1, -1, -2, -3, (1 << 31) - 1, 1 << 31, (1 << 32) + 1, 1 << 61, 1 << 62, (1 << 63) - 1,
-                 -(1 << 31), -(1 << 32) - 1, -(1 << 62), -(1 << 63) + 1, -(1 << 63), 1 << 63, 1 << 64, 0]
+                 -(1 << 31), -(1 << 32) - 1, -(1 << 62), -(1 << 63) + 1, -(1 << 63)]
+        if wild:
+            anchors += [s * p + d for p in (1 << 63, 1 << 64) for s in (1, -1) for d in (-1, 0, 1)]
+            steps += [1 << 63, 1 << 64, -(1 << 63) - 1, 0, 0]
         k = rnd.random()
         s = rnd.choice(steps)
-        if k < 0.45:      # few elements, placed anywhere
+        if k < 0.5:       # few elements, placed anywhere
             a = rnd.choice(anchors)
             cnt = rnd.randint(0, 6)
             b = a + cnt * s + (rnd.choice([-1, 0, 1]) if s else 3)
-        elif k < 0.8:     # both ends anchored: possibly astronomically long
+            if not wild and not -I64 <= b < I64:
+                b = max(-I64, min(I64 - 1, b))
+        elif k < 0.85:    # both ends anchored: possibly astronomically long
             a, b = rnd.choice(anchors), rnd.choice(anchors)
         else:
-            a, b = rand_int(rnd, 70), rand_int(rnd, 70)
+            a, b = rand_int(rnd, 70 if wild else 62), rand_int(rnd, 70 if wild else 62)
             if rnd.random() < 0.5:
-                s = rand_int(rnd, 66)
+                s = rand_int(rnd, 66 if wild else 60)
         return a, b, s
 
     @staticmethod
@@ -494,8 +503,11 @@ class Gen:
                 else:
                     self.add("range_len", "len(%s)" % R, **base)
             elif k < 0.48:
-                cands = [0, 1, -1, n - 1, n, -n, -n - 1, n // 2, 2, -2, (1 << 31), (1 << 32), (1 << 31) - 1, -(1 << 31),
-                         (1 << 32) + 1, 1 << 63, (1 << 63) - 1, -(1 << 63), 1 << 64, -(1 << 64), n - (1 << 32), (n % (1 << 32))]
+                cands = [0, 1, -1, n - 1, n, -n, -n - 1, n // 2, 2, -2, n - 2, 1 - n, rnd.randrange(n) if 0 < n else 0,
+                         -rnd.randrange(n) - 1 if 0 < n else -1]
+                if rnd.random() < 0.25:
+                    cands = [(1 << 31), (1 << 32), (1 << 31) - 1, -(1 << 31), (1 << 32) + 1, 1 << 63, (1 << 63) - 1, -(1 << 63),
+                             1 << 64, -(1 << 64), n - (1 << 32), (n % (1 << 32))]
                 i = rnd.choice(cands)
                 self.add("range_index", "%s[%s]" % (R, isrc(i)), i=big(i), **base)
             elif k < 0.74:
@@ -519,11 +531,13 @@ class Gen:
                     r = rnd.random()
                     if r < 0.25:
                         return None
-                    return rnd.choice([0, 1, 2, -1, -2, n, n - 1, n + 1, -n, -n - 1, n // 2, rnd.randint(-5, 5), 1 << 31, -(1 << 31),
-                                       1 << 32, (1 << 63) - 1, -(1 << 63), 1 << 64, -(1 << 70)])
+                    if r < 0.85:
+                        return rnd.choice([0, 1, 2, -1, -2, n, n - 1, n + 1, -n, -n - 1, n // 2, rnd.randint(-5, 5),
+                                           (1 << 31) - 1, -(1 << 31)]) if abs(n) < (1 << 31) else rnd.randint(-9, 9)
+                    return rnd.choice([n, n - 1, -n, n // 2, 1 << 31, -(1 << 31) - 1, 1 << 32, (1 << 63) - 1, -(1 << 63), 1 << 64, -(1 << 70)])
                 lo, hi = idx(), idx()
-                st = rnd.choice([None, None, 1, 2, 3, -1, -1, -2, 7, 1 << 3, (1 << 31) - 1, 1 << 31, -(1 << 31), 1 << 33, (1 << 63) - 1,
-                                 -(1 << 63), 1 << 64, 0 if rnd.random() < 0.3 else 5])
+                st = rnd.choice([None, None, 1, 2, 3, -1, -1, -2, 7, 1 << 3, 1 << 20, (1 << 31) - 1, -(1 << 31), -(1 << 31) + 1] +
+                                ([1 << 31, 1 << 33, (1 << 63) - 1, -(1 << 63), 1 << 64, 0, 0] if rnd.random() < 0.2 else []))
                 o = lambda v: NONE if v is None else some(big(v))
                 t = lambda v: "" if v is None else isrc(v)
                 self.add("range_slice", PROBE % ("%s[%s:%s:%s]" % (R, t(lo), t(hi), t(st))), lo=o(lo), hi=o(hi), st=o(st), **base)
@@ -584,6 +598,8 @@ class Gen:
                  lo=NONE, hi=NONE, st=some(big(8)), **R(0, 1 << 62, 1 << 60))
         self.add("range_slice", "(lambda r: [len(r), r[0], r[-1]] if r else [0])(range(1<<62, (1<<63)-1, 1<<61)[0:2])",
                  lo=some(big(0)), hi=some(big(2)), st=NONE, **R(1 << 62, (1 << 63) - 1, 1 << 61))
+        self.add("range_slice", "(lambda r: [len(r), r[0], r[-1]] if r else [0])(range(0, 1<<62, 1<<60)[::-(1<<31)])",
+                 lo=NONE, hi=NONE, st=some(big(-(1 << 31))), **R(0, 1 << 62, 1 << 60))
         self.add("math", "math.round(9007199254740993)", fn="round", at="int", a=big((1 << 53) + 1))
 
 
@@ -651,25 +667,45 @@ def tlc_validate(ctx, files):
     return bad, tol, checked
 
 
+def float_int_value(f):
+    """the integer a float record is equal to, or None"""
+    if f["e"] == 2047:
+        return None
+    m = sum(l << (15 * i) for i, l in enumerate(f["m"]))
+    sig, ex = (m, -1074) if f["e"] == 0 else (m | (1 << 52), f["e"] - 1075)
+    if ex >= 0:
+        v = sig << ex
+    elif sig % (1 << -ex) == 0:
+        v = sig >> -ex
+    else:
+        return None
+    return -v if f["s"] else v
+
+
+def span_overflows(a, b, s):
+    """rangeLen's intermediate (stop - 1 - start, or -step) does not fit a signed 64-bit integer"""
+    if s > 0 and b > a:
+        return b - 1 - a >= I64 or Gen.rlen(a, b, s) >= I64
+    if s < 0 and a > b:
+        return a - 1 - b >= I64 or s == -I64 or Gen.rlen(a, b, s) >= I64
+    return False
+
+
 def signature(c):
-    """class of the failing input (stable across seeds)"""
+    """class of the failing input (stable across seeds; one class per root cause)"""
     op = c["op"]
-    if op == "range_in":
-        if c["xt"] == "float":
-            f = c["x"]
-            integral = False
-            if f["e"] < 2047:
-                m = sum(l << (15 * i) for i, l in enumerate(f["m"]))
-                sig, ex = (m, -1074) if f["e"] == 0 else (m | (1 << 52), f["e"] - 1075)
-                integral = ex >= 0 or sig % (1 << -ex) == 0
-            return "range_in/float-" + ("integral" if integral else "non-integral")
-        x = unbig(c["x"])
-        return "range_in/int-" + ("beyond-int32" if not -(1 << 31) <= x < (1 << 31) else "within-int32")
     if op.startswith("range_"):
         a, b, s = unbig(c["a"]), unbig(c["b"]), unbig(c["s"])
-        n = Gen.rlen(a, b, s) if s else 0
-        if n >= I64:
-            return "range/length-beyond-int64"
+        if span_overflows(a, b, s):
+            return "range/span-beyond-int64"
+        if op == "range_in":
+            if c["xt"] == "float":
+                x = float_int_value(c["x"])
+                if x is None:
+                    return "range_in/float-non-integral"
+            else:
+                x = unbig(c["x"])
+            return "range_in/" + ("beyond-int32" if not -(1 << 31) <= x < (1 << 31) else "within-int32")
         if op == "range_slice":
             return "range_slice/int64-overflow"
         return op
@@ -738,7 +774,7 @@ def run(ctx):
             k = c["id"]
             r = nres[k]
             if r.get("panic"):
-                ctx.violation(signature(c) + "/panic", "%s panics: %s" % (c["src"], r["panic"]), {"case": c})
+                ctx.violation(("range_slice" if c["op"] == "range_slice" else signature(c)) + "/panic", "%s panics: %s" % (c["src"], r["panic"]), {"case": c})
             elif k in bad2:
                 ctx.violation(signature(c), "%s -> %s, not the exact result" % (c["src"], show(r)), {"case": c})
             if k in mism2:
